@@ -10,7 +10,7 @@ from fractions import Fraction as Fr
 from core import *
 from c03 import py_round, _fr, _err
 
-NEEDS = ["Solver", "SolverProofs", "Interp", "Inputs", "InputsProofs", "Corr"]
+NEEDS = ["Solver", "SolverProofs", "Interp", "Inputs", "InputsProofs", "Corr", "InputsConv"]
 GUARDS = ["multi_sample"]
 ERRMAP = {"IndexError": "ErrIndex", "ZeroDivisionError": "ErrZeroDiv", "ValueError": "ErrShape", "AttributeError": "ErrAttribute"}
 
